@@ -44,12 +44,16 @@ func yieldStmt(r *rand.Rand) string {
 	return ""
 }
 
-const gorFamilies = 16
+const gorFamilies = 18
 
 // genGorCase generates a case of the given family (a random one when family < 0).
 func genGorCase(r *rand.Rand, family int) gorCase {
 	if family < 0 {
-		family = r.Intn(gorFamilies)
+		family = r.Intn(gorFamilies + 4)
+		if family >= gorFamilies {
+			// the two families about what a started goroutine / a select clause receives get more weight
+			family = 16 + family%2
+		}
 	}
 	n := 3 + r.Intn(8)
 	a, b := 2+r.Intn(5), r.Intn(9)
@@ -116,6 +120,85 @@ func genGorCase(r *rand.Rand, family int) gorCase {
 		// a select with several send cases of the same register kind: every channel must get its own value
 		// (the emitter evaluated them all into one register; repaired by the select fix recorded in KNOWN_FINDINGS.txt)
 		return gorCase{Name: "select-several-sends", Body: "a := make(chan int, 1)\nb := make(chan int, 1)\ns := make(chan string, 1)\nt := make(chan string, 1)\nx := " + A + "\nfor i := 0; i < " + N + "; i++ {\n\tfor k := 0; k < 4; k++ {\n\t\tselect {\n\t\tcase a <- x + i:\n\t\tcase b <- x*" + B + " - i:\n\t\tcase s <- \"s\":\n\t\tcase t <- \"t\" + h.Sprint(i):\n\t\t}\n\t}\n\th.Print(<-a, \" \", <-b, \" \", <-s, \" \", <-t, \";\")\n}\n"}
+	case 16:
+		// receives in a select from a channel that gets closed: after the close every receive
+		// yields the zero value, whatever the register of the clause held before (earlier values,
+		// the operand of a send clause of the same kind)
+		kinds := []struct{ typ, val, zero, send string }{
+			{"int", "i*" + A + " + 1", "0", B + " + 7"},
+			{"string", "\"s\" + h.Sprint(i)", "\"\"", "\"sent\""},
+			{"float64", "float64(i) + 1.5", "0", "2.25"},
+			{"[]int", "[]int{i + 1, " + A + "}", "nil", "[]int{9}"},
+			{"bool", "true", "false", "true"},
+		}
+		k := kinds[r.Intn(len(kinds))]
+		extra := 2 + r.Intn(3)
+		show := "h.Print(v, \" \")"
+		if k.typ == "[]int" {
+			show = "h.Print(len(v), v == nil, \" \")"
+		}
+		second := "case never <- " + k.send + ":\n\t\th.Print(\"sent \")"
+		if r.Intn(2) == 0 {
+			second = "case w := <-never:\n\t\th.Print(\"w\", w, \" \")"
+		}
+		recv := "case v := <-c:\n\t\t" + show
+		if r.Intn(3) == 0 {
+			recv = "case v, ok := <-c:\n\t\t" + show + "\n\t\th.Print(ok, \" \")"
+		}
+		first, other := recv, second
+		if r.Intn(2) == 0 {
+			first, other = second, recv
+		}
+		return gorCase{Name: "select-receive-from-closed", Body: "c := make(chan " + k.typ + buf + ")\nnever := make(chan " + k.typ + ")\nclosed := make(chan bool)\ngo func() {\n\tfor i := 0; i < " + N + "; i++ {\n\t\t" + y() + "\t\tc <- " + k.val + "\n\t}\n\tclose(c)\n\tclose(closed)\n}()\nfor i := 0; i < " + N + "; i++ {\n\tselect {\n\t" + first + "\n\t" + other + "\n\t}\n}\n<-closed\nfor i := 0; i < " + fmt.Sprint(extra) + "; i++ {\n\tselect {\n\t" + first + "\n\t" + other + "\n\t}\n}\nh.Print(\"end\")\n"}
+	case 17:
+		// go statements of functions that have results: in a call frame the result registers come
+		// first, the parameters follow; every parameter of every register kind must reach the goroutine
+		type par struct{ name, typ, arg, zero string }
+		pool := []par{
+			{"a", "int", A + " + 1", "0"}, {"b2", "int", B + " + 2", "0"}, {"c2", "int64", "int64(" + N + ")", "0"},
+			{"s", "string", "\"s" + A + "\"", "\"\""}, {"t", "string", "\"t\" + h.Sprint(" + B + ")", "\"\""},
+			{"f", "float64", "float64(" + A + ") / 2", "0"}, {"g", "float64", "1.25", "0"},
+			{"e", "[]int", "[]int{" + A + ", " + B + "}", "nil"}, {"m", "map[string]int", "map[string]int{\"k\": " + N + "}", "nil"},
+			{"ok", "bool", "true", "false"},
+		}
+		resKinds := []string{"int", "string", "float64", "[]int", "bool", "error"}
+		var sb strings.Builder
+		sb.WriteString("out := make(chan string" + buf + ")\n")
+		for q := 0; q < 3; q++ {
+			r.Shuffle(len(pool), func(i, j int) { pool[i], pool[j] = pool[j], pool[i] })
+			np := 1 + r.Intn(len(pool))
+			ps := pool[:np]
+			nr := 1 + r.Intn(4)
+			var params, args, shown, results []string
+			for _, p := range ps {
+				params = append(params, p.name+" "+p.typ)
+				args = append(args, p.arg)
+				switch p.typ {
+				case "[]int":
+					shown = append(shown, "len("+p.name+")", p.name+"[0]")
+				case "map[string]int":
+					shown = append(shown, p.name+"[\"k\"]")
+				default:
+					shown = append(shown, p.name)
+				}
+			}
+			for i := 0; i < nr; i++ {
+				results = append(results, fmt.Sprintf("r%d %s", i, resKinds[r.Intn(len(resKinds))]))
+			}
+			decl := "func(" + strings.Join(params, ", ") + ", out chan string) (" + strings.Join(results, ", ") + ") {\n\t" + y() + "\tout <- h.Sprint(" + strings.Join(shown, ", \" \", ") + ")\n\treturn\n}"
+			fn := fmt.Sprintf("fn%d", q)
+			switch r.Intn(3) {
+			case 0:
+				sb.WriteString("go " + decl + "(" + strings.Join(args, ", ") + ", out)\n")
+			case 1:
+				sb.WriteString(fn + " := " + decl + "\ngo " + fn + "(" + strings.Join(args, ", ") + ", out)\n")
+			default:
+				// from inside a call, with live locals around
+				sb.WriteString(fn + " := " + decl + "\nstart" + fmt.Sprint(q) + " := func(d int) {\n\tl1, l2 := d*3, \"loc\"\n\tgo " + fn + "(" + strings.Join(args, ", ") + ", out)\n\t_, _ = l1, l2\n}\nstart" + fmt.Sprint(q) + "(" + A + ")\n")
+			}
+			sb.WriteString("h.Print(<-out, \";\")\n")
+		}
+		return gorCase{Name: "go-function-with-results", Body: sb.String()}
 	case 9:
 		return gorCase{Name: "buffered-semaphore", Body: "sem := make(chan bool, 2)\nres := make(chan int, " + N + ")\nfor i := 0; i < " + N + "; i++ {\n\tgo func(v int) {\n\t\tsem <- true\n\t\t" + y() + "\t\tres <- v * v\n\t\t<-sem\n\t}(i)\n}\nt := 0\nfor i := 0; i < " + N + "; i++ {\n\tt += <-res\n}\nh.Print(t, \" \", len(sem) <= 2, \" \", cap(res))\n"}
 	default:
